@@ -215,6 +215,7 @@ def object_histories(ctx):
     directed = [['series()', ch, 'series()'] for ch in ('rt=', 'gen_rs(rt)', 'series(rt)', 'add_constant', 'reset_values', 'gen_rs()', 's_a')] + \
                [['series(xi)', ch, 'series()'] for ch in ('rt=', 'gen_rs(rt)', 'reset_values')] + \
                [['series(rt)', 'rt=', 'series()'], ['gen_rs(rt)', 'series()', 'rt=', 'series()'], ['series()', 'series(xi)', 'series()'],
+                ['series()', 'series()', 'series()'], ['series(xi)', 'series(xi)', 'series()', 'series()'],
                 ['s_a', 'series()', 'gen_rs(rt)', 's_a', 'series()']]
     n_random = 25 if ctx.tier == 'quick' else 300
     for i in range(len(directed) + n_random):
@@ -266,6 +267,12 @@ def object_histories(ctx):
                 ctx.hist('object-history/' + op)
                 ctx.oracle('AccSignal.response_series == response_series(current record, current periods, damping) after any history',
                            ok, {'history': list(hist), 'n': n, 'dt': dt, 'periods': cur_rt}, facts={'history': list(hist)})
+                if rng.random() < 0.5:
+                    # the caller edits the arrays it was handed (scale, abs in place): later calls must not see that
+                    got[0][...] *= 100.0
+                    np.abs(got[1], out=got[1])
+                    got[2][...] = 0.0
+                    hist.append('(caller edits the returned arrays in place)')
         ctx.count_case(('hist', a.tobytes(), tuple(hist)), True, sample={'fn': 'AccSignal history', 'history': hist} if i < 2 else None)
 
 
